@@ -76,6 +76,7 @@ psgstrf_thread_finalize(psgstrf_threadarg_t *psgstrf_threadarg,
     superlumt_options = psgstrf_threadarg->superlumt_options;
     Glu = pxgstrf_shared->Glu;
     Glu->supno[n] = Glu->nsuper;
+    SLU_VERIF_EV(SLU_VEV_PRE_FINALIZE, 0, n, 0, 0, pxgstrf_shared);
 
     countnz(n, pxgstrf_shared->xprune, &nnzL, &nnzU, Glu);
     fixupL(n, perm_r, Glu);
